@@ -116,7 +116,13 @@ def _topologies(repo):
     t.link(o, [], b, "in1")
     t.link(None, [], b, "in2")
     out.append(("one-of-two-unconnected", t, [a, b]))
-    # adapter dangling without source
+    # inputs behind adapters that are attached to no output
+    for chain in ([PASS], [PASS, PASS], [BUF], [DFIX, PASS]):
+        for st in (False, True):
+            t, a, b = base()
+            t.output(a)
+            t.link(None, chain, b, static_in=st)
+            out.append((f"dangling-adapters:{'>'.join(chain)}:{'static' if st else 'dynamic'}", t, [a, b]))
     # fan-outs: at the output, at / below pass-through and no-branch adapters
     def fan(name, first, between, at_second=False):
         t = Topo(repo)
@@ -195,6 +201,7 @@ def r38_valid(repo, sink):
     okl, vl = repo.const_property(ad, "needs_pull")
     sink.check(okp and okl and vp is False and vl is False, "R38", "needs-table:Adapter", (ad.file, ad.node.lineno),
                ok="plain adapters need neither push nor pull", bad=f"Adapter defaults are needs_push={vp}, needs_pull={vl}")
+    _slot_constructors(repo, sink)
     worst_by = {}
     n = 0
     for name, topo, members in _topologies(repo):
@@ -268,3 +275,39 @@ def _metadata_links(repo, sink):
     ok = isinstance(links, list) and len(links) == want
     sink.check(ok, "R38", "metadata-links", g, ok=f"{want} created links, {want} reported",
                bad=f"metadata reports {len(links) if isinstance(links, list) else links} links, {want} were created")
+
+
+def _slot_constructors(repo, sink):
+    """The static flag (and the name) given to a slot constructor is what the slot reports:
+    validation of static inputs against non-static outputs reads it."""
+    from ..absbase import FinamInterp
+
+    class _I(FinamInterp):
+        def call_hook(self, fv, args, kwargs, node, mod):
+            if isinstance(fv, Closure) and getattr(fv.func, "name", "") == "push_info":
+                return None
+            return super().call_hook(fv, args, kwargs, node, mod)
+
+    from ..interp import Closure
+    for cname, has_static, has_cb in (("Input", True, False), ("CallbackInput", True, True), ("Output", True, False), ("CallbackOutput", False, True)):
+        c = repo.cls(cname)
+        init = repo.resolve(c, "__init__", "method")
+        isst = repo.resolve(c, "is_static", "getter")
+        nm = repo.resolve(c, "name", "getter")
+        for static in ((False, True) if has_static else (False,)):
+            o = Obj(cls=c, label=cname)
+            kw = {"name": "slot"}
+            if has_static:
+                kw["static"] = static
+            args = [Sym("callback")] if has_cb else []
+            try:
+                _I(repo).run(init, args, kw, self_obj=o)
+                got = _I(repo).run(isst, [], self_obj=o)
+                gname = _I(repo).run(nm, [], self_obj=o)
+            except (Raised, Undecided, AnalysisError) as exc:
+                sink.unknown("R38", f"slot-constructor:{cname}", init, f"constructor outside vocabulary: {exc}")
+                break
+            sink.check(got is static and gname == "slot", "R38", f"slot-constructor:{cname}:static={static}", init,
+                       ok=f"{cname}(static={static}) reports is_static={static}",
+                       bad=f"{cname}(name='slot', static={static}) reports is_static={got!r}, name={gname!r}: the static-input/non-static-output "
+                           "validation cannot see the declared flag")
